@@ -36,6 +36,12 @@ pub fn main() {
     if std::env::var_os("DST_LOUD_PANICS").is_none() {
         std::panic::set_hook(Box::new(|_| {}));
     }
+    if args.iter().any(|a| a == "--no-nest") {
+        crate::stub::NO_NEST.store(true, std::sync::atomic::Ordering::Relaxed);
+    }
+    if matches!(args[1].as_str(), "block" | "replay" | "rerecord" | "ref") {
+        crate::watch::start();
+    }
     match args[1].as_str() {
         "block" => {
             let prop = arg_val(&args, "--prop").unwrap_or_else(|| "C17".into());
@@ -156,6 +162,9 @@ pub fn replay_full(rf: &RunFile) -> (Option<engine::Violation>, Option<Vec<u16>>
         return (block::check_build_case(case).map(|(kind, detail)| engine::Violation { property: "C18".into(), kind, detail, thread: 0, op: 0, step: 0 }), None);
     }
     let Some(spec) = rf.spec.as_ref() else { return (None, None) };
+    if rf.no_nest {
+        crate::stub::NO_NEST.store(true, std::sync::atomic::Ordering::Relaxed);
+    }
     // process-global state: re-execute the earlier runs of the block first
     if rf.prefix_runs > 0 && prop == Prop::C17 {
         for run in 0..rf.prefix_runs.min(rf.run) {
